@@ -952,7 +952,8 @@ def c15e(F, R):
         name = short(i["self_ty"])
         params = [x.get("name") for x in f["hir"]["params"]]
         path_p, parent_p = params[1], params[2]
-        body = f["hir"]["value"]
+        # private helpers of the reader (`self.resolve_import_path(path, parent_file)?`) read as if their body stood at the call
+        body, _inl = inline_self_helpers(F, f, i["self_ty"] + "::")
         oks = [n for n in walk(body, pats=False) if n.get("k") == "Call" and short(callee_of(n) or "") == "Ok" and peel(n["args"][0]).get("k") == "Tup"]
         if not oks or refuses_includes(f, parent_p):
             R.ok(f"{name}|refuses", detail=f"{name}::import_file never returns a (id, text) pair for an include")
@@ -1003,7 +1004,7 @@ def c15e(F, R):
                     pass
             # bindings introduced by destructuring parent_p
             for x in walk(body, pats=False):
-                if x.get("k") == "LetExpr" and ekey(x["init"]) == parent_p:
+                if x.get("k") in ("LetExpr", "Let") and x.get("init") is not None and ekey(x["init"]) == parent_p:
                     keybinds |= {b["name"] for b in walk(x["pat"]) if b.get("k") == "PBinding"}
                 if x.get("k") == "Match" and ekey(x["scrut"]) == parent_p:
                     for a in x["arms"]:
@@ -1373,7 +1374,7 @@ def c09c(F, R):
 SEVT = "riscv_analysis::passes::lint_error::SeverityLevel"
 
 
-@rule("C18", "C18.b.severity-vocabulary", floor=12)
+@rule("C18", "C18.b.severity-vocabulary", floor=4)
 def c18b(F, R):
     """every SeverityLevel -> word table of the printers maps each level to the same word"""
     tables = []
@@ -1389,8 +1390,31 @@ def c18b(F, R):
                     tab[v] = ls[0] if len(ls) == 1 else None
                 if any(tab.values()):
                     tables.append((p.split("::{closure")[0], tab, m))
-    if len(tables) < 3:
-        raise Anchor(f"only {len(tables)} severity word tables found in the CLI")
+    if not tables:
+        raise Anchor("no severity word table found in the CLI")
+    # every output channel that shows a level gets its word from such a table (each its own, or one that all of them share)
+    impls = [i for i in F.impls if (i.get("trait") or "").split("::")[-1] == "ErrorDisplay"]
+    if len(impls) < 2:
+        raise Anchor(f"only {len(impls)} ErrorDisplay impls")
+    cg = F.callgraph()
+    holders = {t[0] for t in tables}
+    for i in impls:
+        name = short(i["self_ty"])
+        start = [it["path"] for it in i["items"] if it["name"] == "display_errors"]
+        seen, todo = set(), list(start)
+        while todo:
+            q = todo.pop()
+            if q in seen:
+                continue
+            seen.add(q)
+            todo += [c for c in cg.get(q, ()) if c in F.fns and F.fns[c].get("crate") in ("rva", "riscv_analysis_cli")]
+        reads_level = any(n.get("k") == "Field" and n["name"] == "level" and "SeverityLevel" in (n.get("ty") or "") for q in seen if "hir" in F.fns.get(q, {}) for n in walk(F.fns[q]["hir"]["value"], pats=False))
+        if seen & holders:
+            R.ok(f"{name}|words-from-a-table", detail=f"{name} gets its level words from {sorted(short(h) for h in seen & holders)}")
+        elif reads_level:
+            R.bad(f"{name}|words-from-a-table", f"{name} reads the level of a diagnostic but reaches no SeverityLevel -> word table: what it prints for a level is not tied to the words of the other channels", F.fn(start[0])["sp"] if start else None)
+        else:
+            R.ok(f"{name}|words-from-a-table", detail=f"{name} does not show levels", trivial=True)
     ref = tables[0][1]
     for i, (p, tab, m) in enumerate(tables, 1):
         for v in F.variants(SEVT):
